@@ -23,11 +23,14 @@ pub fn spec(tier: Tier) -> RelSpec {
             // the rules that cut a pipeline into sub-queries, one step deeper over a small alphabet
             GenCfg { depth: 3, sources: vec![SrcKind::OpenT, SrcKind::LetClosed], max_joins: 1, letters: Letters::Split },
         ],
-        // same program depth as quick (depth-3 programs meet defect causes that are not triaged yet,
-        // see DESIGN §9); deeper in the instance dimension: every program on the whole exhaustive space
+        // depth 2 over all source kinds on the whole exhaustive instance space, plus depth 3 over two source
+        // kinds (its defect causes were triaged on the second day, see DESIGN §9) and the Split alphabet at depth 4
         Tier::Thorough => vec![
             mk(2, vec![SrcKind::OpenT, SrcKind::LetClosed, SrcKind::Literal, SrcKind::SubClosed, SrcKind::LetSorted], 2),
             GenCfg { depth: 4, sources: vec![SrcKind::OpenT, SrcKind::LetClosed, SrcKind::LetSorted], max_joins: 1, letters: Letters::Split },
+            // every depth-3 program of the core alphabet over the two basic source kinds (0.36 M programs, on the
+            // instance pool only — `exh_depth` keeps the exhaustive instance space for programs of up to 2 steps)
+            mk(3, vec![SrcKind::OpenT, SrcKind::LetClosed], 1),
         ],
     };
     RelSpec {
